@@ -171,4 +171,46 @@ theorem stopCalls_eq (cfg : Config) (h : Nat) :
   unfold stopCalls stopEffs
   split <;> simp [toOut, Function.comp_def]
 
+
+/-! ### nodes_by_host: every node id belongs to exactly one host group -/
+
+def flatIds (g : List ((Nat × Nat) × List Nat)) : List Nat := g.flatMap (·.2)
+
+theorem flatIds_addNode (g : List ((Nat × Nat) × List Nat)) (hp : Nat × Nat) (id x : Nat) :
+    (flatIds (addNode g hp id)).count x = (flatIds g).count x + if id = x then 1 else 0 := by
+  induction g with
+  | nil => simp [addNode, flatIds, List.count_cons]
+  | cons a rest ih =>
+    obtain ⟨k, ids⟩ := a
+    simp only [addNode]
+    split
+    · simp [flatIds, List.count_append, List.count_cons]; omega
+    · simp only [flatIds, List.flatMap_cons, List.count_append] at ih ⊢
+      omega
+
+theorem flatIds_groupsFrom (l : List (Nat × Nat)) (i : Nat) (g : List ((Nat × Nat) × List Nat)) (x : Nat) :
+    (flatIds (groupsFrom l i g)).count x = (flatIds g).count x + if i ≤ x ∧ x < i + l.length then 1 else 0 := by
+  induction l generalizing i g with
+  | nil => simp [groupsFrom]
+  | cons hp rest ih =>
+    simp only [groupsFrom]
+    rw [ih, flatIds_addNode]
+    by_cases hx : i = x
+    · subst hx
+      have h1 : ¬ (i + 1 ≤ i ∧ i < i + 1 + rest.length) := by omega
+      have h2 : i ≤ i ∧ i < i + (hp :: rest).length := by simp
+      simp [h1, h2]
+    · by_cases h1 : i + 1 ≤ x ∧ x < i + 1 + rest.length
+      · have h2 : i ≤ x ∧ x < i + (hp :: rest).length := by simp; omega
+        rw [if_neg hx, if_pos h1, if_pos h2]
+      · have h2 : ¬ (i ≤ x ∧ x < i + (hp :: rest).length) := by simp; omega
+        rw [if_neg hx, if_neg h1, if_neg h2]
+
+/-- node ids are 0 … n-1 (position in the host list) and each lies in exactly one (ip, port) group, once -/
+theorem node_in_exactly_one_group (cfg : Config) (x : Nat) :
+    (flatIds (groups cfg)).count x = if x < cfg.hosts.length then 1 else 0 := by
+  unfold groups
+  rw [flatIds_groupsFrom]
+  simp [flatIds]
+
 end Mechanic
